@@ -266,6 +266,33 @@ pub fn eval_case(case: &Case, st: &mut Stats) -> Vec<Fail> {
     }
     let sa = xot.to_string(a);
     if case.order.is_empty() {
+        // the parse route does not depend on how white space in attribute values and namespace URIs, or line ends in
+        // text, are spelled: every spelling that differs from the default one in one such choice gives the same tree
+        let base = crate::spell::render(tree, &[]);
+        for (i, m) in base.points.iter().enumerate().skip(1) {
+            if !matches!(base.labels[i], "attr:space" | "text:LF" | "attr:ws-ref" | "text:CR" | "text:TAB") {
+                continue;
+            }
+            for alt in 1..*m as usize {
+                let r = crate::spell::render(tree, &[(i, alt)]);
+                st.evals += 1;
+                st.bump("respelled_parses");
+                match catch(|| xot.parse(&r.text)) {
+                    Ok(Ok(n)) => {
+                        let rn = read(&xot, n);
+                        if let Some(d) = diff_class(&norm(tree), &norm(&rn)) {
+                            fails.push(Fail::new(format!("parse-route-differs|respelled|{}", strip(&d)), format!("{:?} parsed as {}", r.text, rn.show())));
+                        } else if !xot.deep_equal(a, n) {
+                            fails.push(Fail::new("parse-route|respelled|deep_equal-false", format!("{:?}", r.text)));
+                        }
+                    }
+                    other => fails.push(Fail::new("parse-route-fails|respelled", format!("{:?}: {:?}", r.text, other.map(|r| r.map(|_| ())))),),
+                }
+            }
+        }
+        if !fails.is_empty() {
+            return fails;
+        }
         // route B: fixed
         let fd = to_fixed_doc(tree);
         let b = match catch(|| fd.xotify(&mut xot)) {
@@ -385,6 +412,7 @@ fn documents(tier: Tier) -> Vec<A> {
     let mut extra = extra;
     extra.push(A::doc(vec![A::el("", "a").attr("", "k", "x\ty\nz\rw").attr("", "l", " \"'<&> ").child(A::text("a\rb\tc\nd"))]));
     extra.push(A::doc(vec![A::el("u\tv", "a").decl("p", "u\tv").attr("u\tv", "k", "\n").child(A::el("", "b").child(A::text("]]>")))]));
+    extra.push(A::doc(vec![A::el("u v", "a").decl("p", "u v").decl("", "x  y").attr("u v", "k", "a b").child(A::el("x  y", "b").child(A::text("l1\nl2")))]));
     extra.push(A::doc(vec![A::el("", "a").attr("", "k", "").attr("", "l", " ").child(A::el("", "b").attr("", "k", ""))]));
     let items = [A::comment("l"), A::pi("x", None)];
     let lead: Vec<Vec<A>> = (0..strings_count(2, 2)).map(|i| nth_string(&items, 2, i)).collect();
@@ -496,7 +524,7 @@ pub fn run(tier: Tier) -> i32 {
         return 2;
     }
     let cov = json!({
-        "rule": format!("documents = 0-2 leading and 0-2 trailing comments/PIs around every element tree with <= 4 ordinary nodes over 3 element prototypes (attributes, two declarations, namespaced attribute) and text/comment/PI leaves, total attach steps <= {}; routes: parse of the default rendering, fixed::Document / fixed::Element xotify, stepwise creation with every permutation of the attach steps x two neighbour preferences (append / prepend / insert_after / insert_before, bottom-up orders included; orders that make two text nodes adjacent transiently are skipped); plus, for every element tree with <= 3 ordinary nodes that carries declarations or attributes and needs <= {} steps in all, bare elements with every declaration and attribute as a step of its own (append_namespace_node / append_attribute_node, any_append, or the map API), in every interleaving with the attach steps that keeps each element's map order; plus documents whose attribute values, namespace URIs and text contain TAB, LF, CR, quotes and markup characters; distinct = distinct (document, program)", tier.pick(5, 6), tier.pick(7, 8)),
+        "rule": format!("documents = 0-2 leading and 0-2 trailing comments/PIs around every element tree with <= 4 ordinary nodes over 3 element prototypes (attributes, two declarations, namespaced attribute) and text/comment/PI leaves, total attach steps <= {}; routes: parse of the default rendering and of every rendering that spells one white-space character of an attribute value / namespace URI or one line end differently, fixed::Document / fixed::Element xotify, stepwise creation with every permutation of the attach steps x two neighbour preferences (append / prepend / insert_after / insert_before, bottom-up orders included; orders that make two text nodes adjacent transiently are skipped); plus, for every element tree with <= 3 ordinary nodes that carries declarations or attributes and needs <= {} steps in all, bare elements with every declaration and attribute as a step of its own (append_namespace_node / append_attribute_node, any_append, or the map API), in every interleaving with the attach steps that keeps each element's map order; plus documents whose attribute values, namespace URIs and text contain TAB, LF, CR, quotes and markup characters; distinct = distinct (document, program)", tier.pick(5, 6), tier.pick(7, 8)),
     });
     ctx.finish(stats, cov, vec!["XmlWrite default rendering is trusted (self-checked by the parse route comparing against the abstract document)".into()])
 }
